@@ -153,6 +153,9 @@ func parseInterface(fset *token.FileSet, pkg *types.Package, typeSpec *ast.TypeS
 		return config.RawConverter{}, fmt.Errorf("%s may only be applied to type interface declarations ", converterMarker)
 	}
 	typeName := typeSpec.Name.String()
+	if typeSpec.TypeParams != nil {
+		return config.RawConverter{}, fmt.Errorf("type %s: %s may not be applied to generic interfaces", typeName, converterMarker)
+	}
 
 	location := fset.Position(typeSpec.Pos())
 	converterLines := parseRawLines(fileWithLine(location), declDocs)
